@@ -352,6 +352,27 @@ def run(case):
                             lost = np.setdiff1d(np.concatenate(ua), np.concatenate(ub))
                             if len(lost):
                                 P(f'nested-ic:{kind}:any-tracer', f'subset {[R.TR[q] for q in sub]}: {len(lost)} {kind} hosts carrying a galaxy at ic={lo_ic} carry none at ic={hi_ic}, e.g. host index {int(lost[0])}')
+    # successive calls that reuse ONE tracers dict which the caller updates in place between calls (the usual fitting loop):
+    # the second call must equal a call with a freshly built dict holding the same numbers
+    import copy
+    for sub in ((1,), (0, 1, 2)):
+        tr = R.tracers_for(ps, sub, ps['ics'][-1])
+        gen_gal_cat(hd, pd, tr, params, Nthread=nthread, enable_ranks=ps['enable_ranks'], rsd=rsd, nfw=False, write_to_disk=False, verbose=False)
+        for t in tr:
+            tr[t]['logM1'] = tr[t]['logM1'] - 0.4
+            tr[t]['alpha'] = tr[t]['alpha'] * 0.8
+            tr[t]['logM_cut'] = tr[t]['logM_cut'] + 0.15
+        want = {t: {k: v for k, v in d.items()} for t, d in tr.items()}
+        second = gen_gal_cat(hd, pd, tr, params, Nthread=nthread, enable_ranks=ps['enable_ranks'], rsd=rsd, nfw=False, write_to_disk=False, verbose=False)
+        fresh_tr = {t: {k: d[k] for k in want[t] if k in R.tracers_for(ps, sub, ps['ics'][-1])[t]} for t, d in tr.items()}
+        fresh = gen_gal_cat(hd, pd, copy.deepcopy(fresh_tr), params, Nthread=nthread, enable_ranks=ps['enable_ranks'], rsd=rsd, nfw=False, write_to_disk=False, verbose=False)
+        ex['runs'] += 3
+        for t in fresh:
+            for k in fresh[t]:
+                a, b = np.asarray(second[t][k]), np.asarray(fresh[t][k])
+                if a.shape != b.shape or a.tobytes() != b.tobytes():
+                    P('successive-calls:reused-tracer-dict', f'subset {[R.TR[q] for q in sub]}: after updating logM1/alpha/logM_cut in place, the second call with the reused dict differs from a call with a fresh dict in {t}.{k} ({a.shape} vs {b.shape})')
+                    break
     if (_digest(hd), _digest(pd)) != dig0:
         P('input-modified', 'gen_gal_cat modified the halo/particle input arrays')
     if os.environ.get('VF_C09_TIMING'):
